@@ -7,6 +7,13 @@ from translit import to_python, params_of
 from vlib import Obligation, REPO, VERIF
 
 
+def _lift(x):
+    """raw z3 arithmetic terms entering transliterated code become dual numbers (see symlib.D)"""
+    if z3.is_expr(x) and z3.is_arith(x):
+        return S.D(x)
+    return x
+
+
 class BUnit:
     """A namespace of transliterated real functions + obligation recording for one property."""
     def __init__(self, ctx):
@@ -18,7 +25,7 @@ class BUnit:
 
     def install_shim(self):
         ns = self.ns
-        for k in ("Q", "D", "Vec", "Row", "Mat", "cos", "sin", "sqrt", "square", "cube", "dot", "cross", "crossMat", "eye", "val", "der"):
+        for k in ("Q", "D", "Vec", "Row", "Mat", "cos", "sin", "sqrt", "square", "cube", "dot", "cross", "crossMat", "eye", "val", "der", "sign", "clamp"):
             ns[k] = getattr(S, k)
         def vec_ctor(n):
             def f(*a):
@@ -109,6 +116,7 @@ class BUnit:
         self.overloads.setdefault(base, {})[arity] = self.ns[full]
         ov = self.overloads[base]
         def dispatch(*a, _ov=ov, _b=base):
+            a = tuple(_lift(x) for x in a)
             if len(a) not in _ov:
                 raise ExtractionError("no transliterated overload of %s with %d args" % (_b, len(a)))
             return _ov[len(a)](*a)
@@ -143,6 +151,7 @@ class BUnit:
         ov = self.overloads.setdefault(key, {})
         ov[arity] = self.ns[full]
         def dispatch(self_, *a, _ov=ov, _n=name):
+            a = tuple(_lift(x) for x in a)
             if len(a) + 1 not in _ov:
                 raise ExtractionError("no transliterated overload of %s with %d args" % (_n, len(a)))
             return _ov[len(a) + 1](self_, *a)
@@ -175,6 +184,11 @@ class BUnit:
         return r
 
     def record(self, nm, unit, r, function, what):
+        used = self.__dict__.setdefault("_names", {})
+        k = used.get((unit, nm), 0)
+        used[(unit, nm)] = k + 1
+        if k:
+            nm = "%s#%d" % (nm, k + 1)          # same clause on another path
         detail = what
         cex = None
         if r.status == "failed":
